@@ -40,6 +40,7 @@ def tree_family(lv: Leaves, deep: bool = False) -> list:
     t = lv.symbol("t", Tm)
     f = lv.applied("f(t)", M, [t])
     w = lv.symbolic("w", L)
+    ang = lv.symbol("phi", Dim.of(angle=1))  # an angle-typed symbol: angle is a dimension of its own for sums (only the gate erases it)
     pbase = lv.symbol("p", M)
     lv.info["p"]["kind"] = "indexedbase"
     p1 = ("indexed-element", pbase, 1)
@@ -67,6 +68,11 @@ def tree_family(lv: Leaves, deep: bool = False) -> list:
     for nm, tr in leaves + [("a+b", Node("Add", [a, b])), ("a+c", Node("Add", [a, c]))]:
         add(f"Abs({nm})", Node("Abs", [tr]))
         add(f"sin({nm})", Node("Function", [tr], name="sin"))
+    for nm, tr in (("2", 2), ("a/b", ratio), ("a", a)):
+        for cls in ("Add", "Max", "Min"):
+            add(f"{cls}(phi, {nm})", Node(cls, [ang, tr]))
+    add("Add(Mul(phi, a), b)", Node("Add", [Node("Mul", [ang, a]), b]))
+    add("Add(phi, phi)", Node("Add", [ang, ang]))
     add("Derivative(f(t), t)", Node("Derivative", [f, [t, 1]]))
     add("Derivative(f(t), (t, 2))", Node("Derivative", [f, [t, 2]]))
     add("Derivative(f(t), t, a)", Node("Derivative", [f, [t, 1], [a, 1]]))
@@ -147,6 +153,9 @@ class EReader(QReader):
 def _collector(run: Run) -> None:
     m = run.src.need(CE)
     lv = Leaves()
+    misc = run.src.need("symplyphysics.core.dimensions.miscellaneous")
+    # helpers of the sibling module the collectors import (followed into their source); the predicates K5 decides keep their hooks
+    misc_functions = {f_.name: f_ for f_ in misc.tree.body if isinstance(f_, ast.FunctionDef) and f_.name not in ("is_any_dimension", "is_number")}
     fam = tree_family(lv, run.tier == "thorough")
     run.require(len(fam) >= 600, "tree family shrank")
     reported = set()
@@ -158,6 +167,7 @@ def _collector(run: Run) -> None:
         except AnalysisError:
             continue
         R = EReader(m.tree, "collect_expression.py", lv)
+        R.extern_functions = misc_functions
         try:
             got = R.call("collect_expression_and_dimension", [tree])
         except Raised as r:
